@@ -69,6 +69,52 @@ pub fn preset(name: &str) -> Value {
 
 pub const PRESETS: [&str; 5] = ["vanilla", "lcfr", "cfr_plus", "dcfr", "dcfr_prune"];
 
+/// prefix of the labels `label_chance` invents
+pub const ANON: &str = "~anon";
+
+/// the tree as it was before `label_chance`: invented labels removed again.  Solving THIS tree while aligning the
+/// compact game with the labelled one checks that a chance node without an infoset is an infoset of its own
+pub fn unlabelled(tree: &Tree) -> Tree {
+    match tree {
+        Tree::T { .. } => tree.clone(),
+        Tree::C { ci, kids } => Tree::C {
+            ci: if ci.starts_with(ANON) { "none".to_string() } else { ci.clone() },
+            kids: kids.iter().map(|k| crate::tree::CKid { w: k.w.clone(), t: unlabelled(&k.t) }).collect(),
+        },
+        Tree::P { pl, info, kids } => Tree::P { pl: *pl, info: info.clone(), kids: kids.iter().map(|k| crate::tree::PKid { a: k.a.clone(), t: unlabelled(&k.t) }).collect() },
+    }
+}
+
+/// the DECLARED chance infoset of every node of the compact game ("" for other nodes): the label of the raw tree
+/// (labelled by `label_chance`, so nodes declared without an infoset carry distinct labels)
+pub fn declared(tree: &Tree, dump: &Dump<String, String>) -> Vec<String> {
+    fn rec(t: &Tree, d: &Dump<String, String>, id: usize, out: &mut Vec<String>) {
+        match t {
+            Tree::T { .. } => {}
+            Tree::C { kids, .. } if kids.len() == 1 => rec(&kids[0].t, d, id, out),
+            Tree::P { kids, .. } if kids.len() == 1 => rec(&kids[0].t, d, id, out),
+            Tree::C { ci, kids } => {
+                if let DumpNode::Chance(_, dk) = &d.nodes[id] {
+                    out[id] = ci.clone();
+                    for (k, c) in kids.iter().zip(dk.iter()) {
+                        rec(&k.t, d, *c, out);
+                    }
+                }
+            }
+            Tree::P { kids, .. } => {
+                if let DumpNode::Player(_, _, dk) = &d.nodes[id] {
+                    for (k, c) in kids.iter().zip(dk.iter()) {
+                        rec(&k.t, d, *c, out);
+                    }
+                }
+            }
+        }
+    }
+    let mut out = vec![String::new(); dump.nodes.len()];
+    rec(tree, dump, 0, &mut out);
+    out
+}
+
 /// give every several-outcome chance node without a label a unique one
 pub fn label_chance(tree: &mut Tree) {
     fn rec(t: &mut Tree, n: &mut usize) {
@@ -76,7 +122,7 @@ pub fn label_chance(tree: &mut Tree) {
             Tree::T { .. } => {}
             Tree::C { ci, kids } => {
                 if ci == "none" && kids.len() >= 2 {
-                    *ci = format!("u{n}");
+                    *ci = format!("{ANON}{n}");
                     *n += 1;
                 }
                 kids.iter_mut().for_each(|k| rec(&mut k.t, n));
@@ -343,7 +389,7 @@ fn run_step(t: &Tree, case: &Value, threads: usize) -> Result<StepRun, String> {
         if sigma != 1.0 {
             t2.map_pay(&mut |p| tree::Num::F(p.f() * sigma));
         }
-        let game = tree::build(&t2).map_err(|e| format!("from_root: {e:?}"))?;
+        let game = tree::build(&unlabelled(&t2)).map_err(|e| format!("from_root: {e:?}"))?;
         let dump = game.verif_dump();
         let meth = case["method"].as_str().unwrap();
         let it = case["t"].as_u64().unwrap();
@@ -386,7 +432,7 @@ pub fn replay_step(args: &Args) {
         let t: Tree = serde_json::from_value(case["tree"].clone()).unwrap();
         let par = &case["par"];
         let half = exp["half"].as_bool().unwrap();
-        let game = tree::build(&t).expect("valid");
+        let game = tree::build(&unlabelled(&t)).expect("valid");
         let dump = game.verif_dump();
         let mut bad = Vec::new();
         let mut kinds: Vec<String> = Vec::new();
@@ -550,7 +596,7 @@ pub fn solve_pinned(t: &Tree, meth: &str, par: Option<&Value>, budget: u64, max_
     let draws = draws.to_vec();
     let meth = meth.to_string();
     util::catch(move || {
-        let game = tree::build(&t2).map_err(|e| format!("from_root: {e:?}"))?;
+        let game = tree::build(&unlabelled(&t2)).map_err(|e| format!("from_root: {e:?}"))?;
         let dump = game.verif_dump();
         verif::reset();
         if !draws.is_empty() {
@@ -587,7 +633,7 @@ pub fn replay_run(args: &Args) {
         let meth = case["method"].as_str().unwrap();
         let budget = case["T"].as_u64().unwrap();
         let draws: Vec<Value> = case["draws"].as_array().unwrap().clone();
-        let game = tree::build(&t).expect("valid");
+        let game = tree::build(&unlabelled(&t)).expect("valid");
         let dump = game.verif_dump();
         let mut bad = Vec::new();
         let judged = status == "ok" && exp["tie"].as_bool() == Some(false) && exp["eval"]["poisoned"].as_bool() == Some(false);
@@ -700,7 +746,7 @@ pub fn replay_step2(args: &Args) {
         for threads in [1usize, 2] {
             let (t2, case2) = (t.clone(), case.clone());
             let res = util::catch(move || {
-                let game = tree::build(&t2).map_err(|e| format!("from_root: {e:?}"))?;
+                let game = tree::build(&unlabelled(&t2)).map_err(|e| format!("from_root: {e:?}"))?;
                 let dump = game.verif_dump();
                 let meth = case2["method"].as_str().unwrap();
                 let it = case2["t"].as_u64().unwrap();
